@@ -20,7 +20,9 @@
            sweep <seed> <level>        max_data_bytes 1..4000 (boundary emphasis) x bit-rates x durations
            ms <seed> <sessions>        multistream / projection encoders (per-stream calls + split)
            bound <seed> <level>        long frames x high rates x consecutive out_data_bytes (multi-frame boundary scan)
-           cvbr <seed> <n> <seconds>   constrained-VBR long-run totals (S4 only, no I/O lines)
+           fill <seed> <level>         multi-frame VBR packets nearly filling max_data_bytes (sub-frames >= 253 bytes, +-8 sweep)
+           mssweep <seed> <level>      multistream / projection, max_data_bytes 1..600 exhaustively at high rates
+           cvbr <seed> <n> <seconds>   constrained-VBR long-run totals, with setting histories before the measured segment (S4 only)
            silkrate                    compute_silk_rate_for_hybrid on a dense grid
            gentoc                      gen_toc on every legal argument tuple
 */
@@ -268,7 +270,7 @@ static struct {
    OpusEncoder *st; const opus_res *pcm; int lsb;
 } G;
 static long g_cases, g_shadow_mismatch, g_guard_bad;
-static int g_quiet;
+static int g_quiet, g_last_ret;
 
 static void emit_I(void)
 {
@@ -364,7 +366,7 @@ opus_int32 opus_encode_native(OpusEncoder *st, const opus_res *pcm, int frame_si
                                        c1, c2, analysis_channels, downmix, float_api);
    G.live = 0;
    if (!g_quiet) { emit_I(); emit_O(ret, data); }
-   g_cases++;
+   g_cases++; g_last_ret = ret;
    return ret;
 }
 
@@ -403,7 +405,9 @@ static const int DUR400[9] = {1, 2, 4, 8, 16, 24, 32, 40, 48};   /* frame durati
 
 static float vunit(vrng *r) { return (float)(vnext(r) >> 40) / 16777216.0f; }
 
-/* kind: 0 silence 1 sine 2 noise 3 full-scale square 4 quiet noise 5 speech-like bursts 6 non-finite 7 huge */
+/* kind: 0 silence 1 sine 2 noise 3 full-scale square 4 quiet noise 5 speech-like bursts 6 non-finite 7 huge
+         8 harmonic tone complex with a noise click every 50 ms (demanding for the CELT rate control) */
+static long g_t8;
 static void gen_pcm(vrng *r, int kind, float *x, int n, int ch, int fs, double *phase)
 {
    int i, c;
@@ -419,10 +423,16 @@ static void gen_pcm(vrng *r, int kind, float *x, int n, int ch, int fs, double *
       case 5: v = ((i / (fs / 50)) % 3 == 0 ? 0.0f : amp * (float)sin(6.283185307 * (f0 + 3 * (i % 97)) * i / fs) * (0.5f + 0.5f * vunit(r))); break;
       case 6: { uint32_t k = vbelow(r, 50); v = k == 0 ? NAN : k == 1 ? INFINITY : k == 2 ? -INFINITY : amp * (2 * vunit(r) - 1); } break;
       case 7: v = 1e9f * (2 * vunit(r) - 1); break;
+      case 8: { int k; double tt = (double)(g_t8 + i) / fs, a = 0;
+                for (k = 1; k <= 20; k++) if (k * 523.25 < 0.45 * fs) a += 0.0275 * sin(6.283185307 * k * 523.25 * tt + k);
+                if (((g_t8 + i) % (fs / 20)) < fs / 1200) a += 0.76 * (2 * vunit(r) - 1);
+                if (a > 0.98) a = 0.98; if (a < -0.98) a = -0.98;
+                v = (float)(c ? -0.7 * a : a); } break;
       }
       x[i * ch + c] = v;
    }
    *phase += 6.283185307 * f0 * n / fs;
+   if (kind == 8) g_t8 += n;
 }
 
 static int pick_bitrate(vrng *r)
@@ -641,12 +651,40 @@ static void run_cvbr(uint64_t seed, int nconf, int seconds)
       static const int brs[] = {6000, 8000, 12000, 16000, 24000, 32000, 48000, 64000, 96000, 128000, 192000, 256000};
       int fs = FSS[vbelow(&r, 5)], ch = 1 + vbelow(&r, 2), app = APPS[vbelow(&r, 3)], err;
       int d = DUR400[vbelow(&r, 9)], afs = fs / 400 * d, br = brs[vbelow(&r, 12)] * ch, kind = 1 + vbelow(&r, 5);
-      int nfr = seconds * 400 / d, k; long bytes = 0, fails = 0; double phase = 0;
+      int nfr = seconds * 400 / d, k, pre = vbelow(&r, 4); long bytes = 0, fails = 0, hyb = 0; double phase = 0;
       int cx = vchance(&r, 50) ? 10 : (int)vbelow(&r, 11);
-      OpusEncoder *e = opus_encoder_create(fs, ch, app, &err);
+      OpusEncoder *e;
+      if (vchance(&r, 35)) { kind = 8; if (vchance(&r, 70)) { d = 8; afs = fs / 50; nfr = seconds * 50; br = brs[7 + vbelow(&r, 3)] * ch; } }
+      if (c % 5 == 0) {   /* always present: hybrid history, then CELT-only music at 64..128 kb/s per channel on the demanding signal */
+         fs = vchance(&r, 50) ? 48000 : 24000; app = APPS[vbelow(&r, 2)]; kind = 8; pre = 1 + vbelow(&r, 2);
+         d = vchance(&r, 70) ? 8 : 4; afs = fs / 400 * d; nfr = seconds * 400 / d; br = brs[7 + vbelow(&r, 3)] * ch;
+      }
+      e = opus_encoder_create(fs, ch, app, &err);
       if (!e) continue;
-      opus_encoder_ctl(e, OPUS_SET_BITRATE(br)); opus_encoder_ctl(e, OPUS_SET_VBR(1)); opus_encoder_ctl(e, OPUS_SET_VBR_CONSTRAINT(1));
+      opus_encoder_ctl(e, OPUS_SET_VBR(1)); opus_encoder_ctl(e, OPUS_SET_VBR_CONSTRAINT(1));
       opus_encoder_ctl(e, OPUS_SET_COMPLEXITY(cx));
+      /* history before the measured segment: 0 none; 1 speech phase (VOICE, ~28 kb/s per channel: hybrid/SILK frames);
+         2 forced hybrid / SILK frames; 3 random settings and a few frames */
+      if (pre) {
+         int np = vrange(&r, 5, 40), pk;
+         if (pre == 1) { opus_encoder_ctl(e, OPUS_SET_SIGNAL(OPUS_SIGNAL_VOICE)); opus_encoder_ctl(e, OPUS_SET_BITRATE(ch == 1 ? 28000 : 40000)); }
+         else if (pre == 2) { opus_encoder_ctl(e, OPUS_SET_FORCE_MODE(c % 5 == 0 || vchance(&r, 70) ? MODE_HYBRID : MODE_SILK_ONLY)); opus_encoder_ctl(e, OPUS_SET_BITRATE(24000 + (int)vbelow(&r, 40000))); }
+         else rand_ctl(&r, e, vrange(&r, 1, 5));
+         for (pk = 0; pk < np; pk++) {
+            unsigned char *o = out_buf(1500); int ret, pfs = fs / 50;
+            gen_pcm(&r, pre == 3 ? (int)vbelow(&r, 6) : 5, x, pfs, ch, fs, &phase);
+            ret = v_encode_float(e, x, pfs, o, 1500);
+            if (ret >= 1 && (o[0] >> 3) >= 12 && (o[0] >> 3) < 16) hyb++;
+         }
+         /* back to the measured configuration: every setting the prelude may have touched */
+         opus_encoder_ctl(e, OPUS_SET_FORCE_MODE(OPUS_AUTO)); opus_encoder_ctl(e, OPUS_SET_SIGNAL(kind == 8 || vchance(&r, 50) ? OPUS_SIGNAL_MUSIC : OPUS_AUTO));
+         opus_encoder_ctl(e, OPUS_SET_VBR(1)); opus_encoder_ctl(e, OPUS_SET_VBR_CONSTRAINT(1)); opus_encoder_ctl(e, OPUS_SET_COMPLEXITY(cx));
+         opus_encoder_ctl(e, OPUS_SET_BANDWIDTH(OPUS_AUTO)); opus_encoder_ctl(e, OPUS_SET_MAX_BANDWIDTH(OPUS_BANDWIDTH_FULLBAND));
+         opus_encoder_ctl(e, OPUS_SET_FORCE_CHANNELS(OPUS_AUTO)); opus_encoder_ctl(e, OPUS_SET_INBAND_FEC(0)); opus_encoder_ctl(e, OPUS_SET_PACKET_LOSS_PERC(0));
+         opus_encoder_ctl(e, OPUS_SET_DTX(0)); opus_encoder_ctl(e, OPUS_SET_EXPERT_FRAME_DURATION(OPUS_FRAMESIZE_ARG));
+         opus_encoder_ctl(e, OPUS_SET_LSB_DEPTH(24)); opus_encoder_ctl(e, OPUS_SET_PREDICTION_DISABLED(0));
+      }
+      opus_encoder_ctl(e, OPUS_SET_BITRATE(br));
       for (k = 0; k < nfr; k++) {
          unsigned char *o = out_buf(1500); int ret;
          gen_pcm(&r, kind, x, afs, ch, fs, &phase);
@@ -654,8 +692,65 @@ static void run_cvbr(uint64_t seed, int nconf, int seconds)
          check_guard();
          if (ret < 1) fails++; else bytes += ret;
       }
-      printf("V cvbr fs=%d ch=%d app=%d frame=%d br=%d kind=%d cx=%d frames=%d bytes=%ld fails=%ld\n", fs, ch, app, afs, br, kind, cx, nfr, bytes, fails);
+      printf("V cvbr fs=%d ch=%d app=%d frame=%d br=%d kind=%d cx=%d frames=%d bytes=%ld fails=%ld pre=%d hyb=%ld\n", fs, ch, app, afs, br, kind, cx, nfr, bytes, fails, pre, hyb);
       opus_encoder_destroy(e);
+   }
+}
+
+/* multi-frame packets that nearly fill the buffer: VBR, 3..6 sub-frames of >= 253 bytes and unequal size, max_data_bytes swept
+   +-8 around the size a probe packet had (so that sum of sub-frames + worst-case header ~ max_data_bytes) */
+static void run_fill(uint64_t seed, int level)
+{
+   vrng r; int fi, ch, di, ci, ti, mi;
+   static const int tgt[] = {255, 262, 300, 420, 640};
+   r.s = seed * 0xD6E8FEB86659FD93ULL + 29;
+   for (fi = 2; fi < 5; fi++) for (ch = 1; ch <= 2; ch++) for (di = 5; di < 9; di++) for (ci = 0; ci < 2; ci++) for (mi = 0; mi < 2; mi++) for (ti = 0; ti < 5; ti++) {
+      int fs = FSS[fi], err, afs = fs / 400 * DUR400[di], k, probe, nb = DUR400[di] / 8; double phase = 0;
+      OpusEncoder *e;
+      if (!level && ((fi + ch + di + ci + mi + ti + (int)(seed % 3)) % 3) != 0) continue;
+      e = opus_encoder_create(fs, ch, mi ? OPUS_APPLICATION_AUDIO : OPUS_APPLICATION_RESTRICTED_LOWDELAY, &err);
+      if (!e) continue;
+      if (mi) opus_encoder_ctl(e, OPUS_SET_FORCE_MODE(vchance(&r, 50) ? MODE_CELT_ONLY : MODE_HYBRID));
+      opus_encoder_ctl(e, OPUS_SET_VBR(1)); opus_encoder_ctl(e, OPUS_SET_VBR_CONSTRAINT(ci));
+      opus_encoder_ctl(e, OPUS_SET_BITRATE(tgt[ti] * 400 + (int)vbelow(&r, 1200)));
+      /* the demo's case: the largest buffer, per-frame targets right at the per-frame cap */
+      for (k = 0; k < 4; k++) one_encode(&r, e, ch, fs, afs, nb * (tgt[ti] + 1) + (k & 1), 2, &phase);
+      one_encode(&r, e, ch, fs, afs, 4000, 2, &phase);
+      probe = g_last_ret;
+      if (probe > 3 * 253)
+         for (k = -8; k <= 8; k++) one_encode(&r, e, ch, fs, afs, IMAX(1, IMIN(4000, probe + k)), 2, &phase);
+      opus_encoder_destroy(e);
+   }
+}
+
+/* multistream / projection: max_data_bytes swept exhaustively over small values at high rates */
+static void run_mssweep(uint64_t seed, int level)
+{
+   vrng r; int li, vi, fi, di, out;
+   static const int lay[][2] = {{1, 4}, {1, 3}, {1, 6}, {2, 4}, {3, 4}, {1, 8}, {0, 2}};   /* family, channels */
+   r.s = seed * 0x9FB21C651E98DF25ULL + 41;
+   for (li = 0; li < 7; li++) for (vi = 0; vi < 2; vi++) for (fi = 0; fi < (level ? 2 : 1); fi++) for (di = 0; di < (level ? 2 : 1); di++) {
+      static float x[5760 * 8];
+      int fs = fi ? 16000 : 48000, afs = di ? fs / 100 : fs / 50, fam = lay[li][0], ch = lay[li][1], err = 0, streams = 0, coupled = 0, br;
+      unsigned char mapping[255]; double phase = 0;
+      OpusMSEncoder *ms = NULL; OpusProjectionEncoder *pj = NULL;
+      if (fam == 3) pj = opus_projection_ambisonics_encoder_create(fs, ch, 3, &streams, &coupled, OPUS_APPLICATION_AUDIO, &err);
+      else ms = opus_multistream_surround_encoder_create(fs, ch, fam, &streams, &coupled, mapping, OPUS_APPLICATION_AUDIO, &err);
+      if (!ms && !pj) continue;
+      br = vi == 0 && vchance(&r, 30) ? OPUS_BITRATE_MAX : 150000 * streams;
+      if (ms) { opus_multistream_encoder_ctl(ms, OPUS_SET_BITRATE(br)); opus_multistream_encoder_ctl(ms, OPUS_SET_VBR(vi)); opus_multistream_encoder_ctl(ms, OPUS_SET_COMPLEXITY(4)); }
+      else { opus_projection_encoder_ctl(pj, OPUS_SET_BITRATE(br)); opus_projection_encoder_ctl(pj, OPUS_SET_VBR(vi)); opus_projection_encoder_ctl(pj, OPUS_SET_COMPLEXITY(4)); }
+      for (out = 1; out <= 600; out++) {
+         unsigned char *o = out_buf(out); int ret;
+         gen_pcm(&r, 2, x, afs, ch, fs, &phase);
+         g_quiet = 1;
+         ret = ms ? opus_multistream_encode_float(ms, x, afs, o, out) : opus_projection_encode_float(pj, x, afs, o, out);
+         g_quiet = 0;
+         printf("# MS fam=%d fs=%d ch=%d streams=%d coupled=%d afs=%d out=%d vbr=%d br=%d ret=%d\n", fam, fs, ch, streams, coupled, afs, out, vi, br, ret);
+         check_guard();
+      }
+      if (ms) opus_multistream_encoder_destroy(ms);
+      if (pj) opus_projection_encoder_destroy(pj);
    }
 }
 
@@ -701,6 +796,8 @@ int main(int argc, char **argv)
    else if (argc >= 4 && !strcmp(argv[1], "sweep")) run_sweep(strtoull(argv[2], 0, 10), atoi(argv[3]));
    else if (argc >= 4 && !strcmp(argv[1], "ms")) run_ms(strtoull(argv[2], 0, 10), atol(argv[3]));
    else if (argc >= 4 && !strcmp(argv[1], "bound")) run_bound(strtoull(argv[2], 0, 10), atoi(argv[3]));
+   else if (argc >= 4 && !strcmp(argv[1], "fill")) run_fill(strtoull(argv[2], 0, 10), atoi(argv[3]));
+   else if (argc >= 4 && !strcmp(argv[1], "mssweep")) run_mssweep(strtoull(argv[2], 0, 10), atoi(argv[3]));
    else if (argc >= 5 && !strcmp(argv[1], "cvbr")) run_cvbr(strtoull(argv[2], 0, 10), atoi(argv[3]), atoi(argv[4]));
    else if (argc >= 2 && !strcmp(argv[1], "silkrate")) run_silkrate();
    else if (argc >= 2 && !strcmp(argv[1], "gentoc")) run_gentoc();
